@@ -465,22 +465,19 @@ def structure_problems(S, bs, level_sets, seed, depth, ctx="S"):
         return probs + [_exc("transpose", e)]
     tb = [(n, m) for (m, n) in bs]
     pt = attr_problems(T, tb, [[(j, i) for (i, j) in b] for b in bidx], "transpose")
-    if not pt and _bidx_lists(T) != [[(j, i) for (i, j) in b] for b in bidx]:
-        # the transposed structure is the only carrier of the layout of the transposed matrix: entry s of the
-        # data tensor must stay entry s
-        pt = [("transpose:layout", "transpose() does not keep the order of the level index lists")]
+    # (the order inside the level index lists of a derived structure is not documented: a derived structure is
+    # required to denote the right pattern and to be consistent with its own layout, not to keep the order)
     if not pt:
         pt = attr_problems(TT, bs, bidx, "transpose:twice")
-        if not pt and _bidx_lists(TT) != bidx:
-            pt = [("transpose:twice", "transpose().transpose() has index lists %r, original %r" % (_bidx_lists(TT), bidx))]
     if not pt:
         pt = nonzero_problems(T, ctx + ".transpose()")
         if not pt:
             try:
                 _called()
                 It, Jt = T.nonzero()
-                if not (np.array_equal(np.asarray(It).astype(np.int64), J0) and np.array_equal(np.asarray(Jt).astype(np.int64), I0)):
-                    pt = [("transpose:positions", "transpose().nonzero() is not nonzero() with rows and columns swapped")]
+                got = sorted(zip(np.asarray(It).astype(np.int64).tolist(), np.asarray(Jt).astype(np.int64).tolist()))
+                if got != sorted(zip(J0.tolist(), I0.tolist())):
+                    pt = [("transpose:positions", "transpose().nonzero() is not the set of nonzero() with rows and columns swapped")]
             except Exception as e:
                 pt = [_exc("transpose:nonzero", e)]
         if not pt and depth == "full":
@@ -502,8 +499,6 @@ def structure_problems(S, bs, level_sets, seed, depth, ctx="S"):
             _called()
             Sk = S.slice(k)
             p = attr_problems(Sk, [bs[k]], [bidx[k]], "slice")
-            if not p and _bidx_lists(Sk) != [bidx[k]]:
-                p = [("slice:layout", "slice(%d) reorders the index list" % k)]
             if not p and depth == "full":
                 p = nonzero_problems(Sk, "%s.slice(%d)" % (ctx, k))
             probs += p
@@ -513,8 +508,6 @@ def structure_problems(S, bs, level_sets, seed, depth, ctx="S"):
             _called()
             Sab = S.slice(a, b)
             p = attr_problems(Sab, bs[a:b], bidx[a:b], "slice")
-            if not p and _bidx_lists(Sab) != bidx[a:b]:
-                p = [("slice:layout", "slice(%d,%d) reorders the index lists" % (a, b))]
             if not p and (a, b) != (0, L) and b - a > 1:
                 p = nonzero_problems(Sab, "%s.slice(%d,%d)" % (ctx, a, b))
             probs += p
@@ -522,12 +515,8 @@ def structure_problems(S, bs, level_sets, seed, depth, ctx="S"):
             _called()
             Sj = S.slice(0, k).join(S.slice(k, L))
             p = attr_problems(Sj, bs, bidx, "join")
-            if not p and _bidx_lists(Sj) != bidx:
-                p = [("join:layout", "slice(0,%d).join(slice(%d,%d)) reorders the index lists" % (k, k, L))]
             if not p:
-                Ij, Jj = Sj.nonzero()
-                if not (np.array_equal(np.asarray(Ij).astype(np.int64), I0) and np.array_equal(np.asarray(Jj).astype(np.int64), J0)):
-                    p = [("join:nonzero", "slice(0,%d).join(slice(%d,%d)).nonzero() differs from nonzero()" % (k, k, L))]
+                p = nonzero_problems(Sj, "%s.slice(0,%d).join(slice(%d,%d))" % (ctx, k, k, L), lower=False)
             probs += p
     except Exception as e:
         probs.append(_exc("slice-join", e))
@@ -541,8 +530,6 @@ def structure_problems(S, bs, level_sets, seed, depth, ctx="S"):
             probs.append(_exc("reorder", e))
             break
         p = attr_problems(Sr, [bs[a] for a in axes], [bidx[a] for a in axes], "reorder")
-        if not p and _bidx_lists(Sr) != [bidx[a] for a in axes]:
-            p = [("reorder:layout", "reorder(%s) changes the order inside the level index lists" % (axes,))]
         if not p:
             p = nonzero_problems(Sr, "%s.reorder(%s)" % (ctx, axes))
         if p:
@@ -586,14 +573,23 @@ def ml_problems(case):
         Is, Js = R.layout_positions_slow(bs, sets)
         if not (np.array_equal(Is, I0) and np.array_equal(Js, J0)):
             raise AssertionError("harness: layout_positions disagrees with its definition")
+    ctor = case.get("ctor", "from_kronecker")
     try:
         _called()
-        S = MLStructure.from_kronecker(tuple(levels))
+        if ctor == "from_kronecker":
+            S = MLStructure.from_kronecker(tuple(levels))
+        elif ctor == "from_kronecker_sparse":
+            import scipy.sparse
+            S = MLStructure.from_kronecker(tuple(scipy.sparse.csr_matrix(P.astype(float)) for P in levels))
+        elif ctor == "multi_banded":
+            S = MLStructure.multi_banded(tuple(case["sizes"]), tuple(case["bw"]))
+        elif ctor == "dense":
+            S = MLStructure.dense(tuple(case["shape"]))
+        else:
+            raise ValueError(ctor)
     except Exception as e:
-        return [_exc("from_kronecker", e)]
-    probs = structure_problems(S, bs, sets, seed, depth)
-    # from_matrix keeps numpy's row-major nonzero order: data layout of a from_kronecker structure
-    return probs
+        return [_exc(ctor, e)]
+    return structure_problems(S, bs, sets, seed, depth)
 
 
 # ------------------------------------------------------------------------------------------------
@@ -747,6 +743,12 @@ def index_problems(case):
                         return [("reindex_to_multilevel:value", "reindex_to_multilevel(%d,%d,%s) = %s, expected %s (row-major "
                                  "position inside each block)" % (i, j, bs.tolist(), mi, want))]
                     back = tuple(int(x) for x in mlm.reindex_from_multilevel(mi, bs))
+                    if L == 2:
+                        two = tuple(int(x) for x in mlm.reindex_from_reordered(mi[0], mi[1], int(bs[0, 0]), int(bs[0, 1]),
+                                                                               int(bs[1, 0]), int(bs[1, 1])))
+                        if two != back:
+                            return [("reindex_from_multilevel:two-level", "reindex_from_multilevel(%s, %s) = %s but "
+                                     "reindex_from_reordered gives %s" % (mi, bs.tolist(), back, two))]
                     if back != (i, j):
                         return [("reindex_from_multilevel:inverse", "reindex_from_multilevel(reindex_to_multilevel(%d,%d)) = %s for bs=%s"
                                  % (i, j, back, bs.tolist()))]
@@ -1021,7 +1023,31 @@ def ml_cases(tier, seed):
     for name, depth, tuples in groups:
         tuples = sorted(tuples, key=_complexity)
         for t in tuples:
-            cases.append({"part": "ml", "group": name, "levels": [list(map(list, P)) for P in t], "depth": depth, "seed": seed})
+            cases.append({"part": "ml", "levels": [list(map(list, P)) for P in t], "depth": depth, "seed": seed})
+    # the other documented constructors: multi_banded, dense, from_kronecker of scipy sparse matrices
+    extra = []
+
+    def banded(n, bw):
+        return [[1 if abs(i - j) <= bw else 0 for j in range(n)] for i in range(n)]
+    nb1 = [(n, bw) for n in (1, 2, 3, 4) for bw in (0, 1, 2, 3)]
+    nb2 = [(n, bw) for n in (2, 3, 4) for bw in (0, 1, 2)]
+    nb3 = [(2, 0), (2, 1), (3, 1), (3, 2)]
+    nb4 = [(2, 0), (2, 1), (3, 1)]
+    for tup in ([(x,) for x in nb1] + list(itertools.product(nb2, repeat=2)) + list(itertools.product(nb3, repeat=3))
+                + list(itertools.product(nb4, repeat=4)) + [((2, 1),) * 5, ((2, 0), (2, 1)) * 3]):
+        extra.append({"part": "ml", "ctor": "multi_banded", "sizes": [n for n, _ in tup], "bw": [b for _, b in tup],
+                      "levels": [banded(n, b) for n, b in tup], "depth": "full" if len(tup) <= 3 else "core", "seed": seed})
+    for m in (1, 2, 3):
+        for n in (1, 2, 3):
+            extra.append({"part": "ml", "ctor": "dense", "shape": [m, n], "levels": [[[1] * n for _ in range(m)]],
+                          "depth": "full", "seed": seed})
+    sp = [(P,) for P in P22 + P23 + P32] + list(itertools.product(d22 + d23 + d32, repeat=2)) \
+        + list(itertools.product(d22, repeat=3)) + list(itertools.product(d22[:2], repeat=4))
+    for t in sorted(sp, key=_complexity):
+        extra.append({"part": "ml", "ctor": "from_kronecker_sparse", "levels": [list(map(list, P)) for P in t],
+                      "depth": "full" if len(t) <= 3 else "core", "seed": seed})
+    groups.append(("constructors:multi_banded/dense/sparse", "mixed", extra))
+    cases += extra
     return groups, cases
 
 
@@ -1136,7 +1162,8 @@ def _batch_worker(batch):
 
 def _short(case):
     if case["part"] in ("ml", "kronp"):
-        return "%s levels=%s" % (case["part"], json.dumps(case["levels"], separators=(",", ":")))
+        return "%s%s levels=%s" % (case["part"], " " + case["ctor"] if case.get("ctor") else "",
+                                   json.dumps(case["levels"], separators=(",", ":")))
     if case["part"] == "kvs":
         return "kvs rows=%s cols=%s" % ([(s["p"], s["mesh"], s["mults"]) for s in case["rows"]],
                                         [(s["p"], s["mesh"], s["mults"]) for s in case["cols"]])
@@ -1167,7 +1194,7 @@ def run(ctx):
             out.part(part, cases=1, calls=calls)
             if st is not None:
                 if st["rect"] or st["off"]:
-                    out.nontrivial.add(json.dumps(case["levels"], separators=(",", ":")))
+                    out.nontrivial.add(case.get("ctor", "") + json.dumps(case["levels"], separators=(",", ":")))
                 out.part(part, rectangular=int(st["rect"]), first_nonzero_off_origin=int(st["off"]),
                          levels_with_different_first_column=int(st["mixcol"]))
                 out.outcomes.add(st["sig"])
@@ -1223,7 +1250,17 @@ def run(ctx):
         ctx.log("ml %-36s %6d structures (%d in sandbox children), %d problems" % (name, len(sub), nb, n))
     out.traces = out.states
     for c in (mlc[0], mlc[len(mlc) // 3], mlc[-1], kvc[len(kvc) // 2], kpc[len(kpc) // 2], ixc[len(ixc) // 2]):
-        out.sample({k: v for k, v in c.items()}, limit=6)
+        out.sample({"part": c["part"], "case": _short(c)}, limit=6)
+    vk = {}
+    for v in out.violations:
+        vk[v.key] = vk.get(v.key, 0) + 1
+    out.extra["violating_cases_per_key"] = vk
+    out.extra["enumerated_space"] = {
+        "ml": {n: len(t) for n, _, t in groups},
+        "from_kvs": {"knot_vectors": len(alpha), "cases": len(kvc)},
+        "kron_partial": len(kpc),
+        "index_maps": len(ixc),
+    }
     out.rule = ("state = one enumerated case (tuple of per-level 0/1 patterns / pair of knot vectors / parameter tuple of an "
                 "index map); transition = one pyiga call compared with the dense numpy.kron reference. Non-trivial ml case = at "
                 "least one rectangular level or one level whose first nonzero is not (0,0) (what banded test matrices never "
